@@ -165,7 +165,8 @@ fn gen_instance(rng: &mut SplitMix64) -> InstSpec {
             0 | 1 => Drive::Poll,
             2 => Drive::CollectVec,
             3 => Drive::ByRefCollect,
-            4 => match rng.below(9) {
+            4 => match rng.below(10) {
+                9 => Drive::PollThenNth(rng.range(1, 4) as u8),
                 7 => Drive::PollThenCount,
                 8 => Drive::PollThenLast,
                 0 => Drive::Nth0,
